@@ -27,7 +27,7 @@ EXPLANATION = ('Every concrete operator class found by walking the subclasses of
 FUNCTIONS = ['AbstractLinearOperator.__init_subclass__/_monkey_patch_operator', 'diagonal/symmetric/orthogonal/square/lower_triangular/upper_triangular/positive_semidefinite/negative_semidefinite',
              'IdentityOperator', 'HomothetyOperator', 'DiagonalOperator', 'DiagonalInverseOperator', 'HWPOperator', 'SymmetricBandToeplitzOperator', 'QURotationOperator',
              'QURotationTransposeOperator', 'ToastObservationMatrixOperator']
-BOUNDS = {'quick': 'every catalogue leaf of 4 families + leaf.T + leaf.I (closed forms) + 40 composites; all 7 lineax tags + orthogonal + square', 'thorough': 'same + 200 composites'}
+BOUNDS = {'quick': 'every catalogue leaf of 4 families + leaf.T + leaf.I (closed forms) + 40 composites; all 7 lineax tags + orthogonal + square', 'thorough': 'same + up to 3 000 composites per family'}
 STUBS = []
 ASSUMPTIONS = ['real arithmetic', 'a class without a catalogue instance is reported as uncovered in the evidence, not as passing']
 RULE = 'case = operator expression; non-trivial = at least one tag/decorator is True for it; distinct keys'
@@ -47,7 +47,7 @@ def cases(tier, seed):
         progs = list(base) + [('T', b) for b in base] + [('I', ('leaf', n, 0)) for n in c04.CLOSED_INV[fam]]
         comp = [e for e in c01.gen_programs(fam, 'quick', seed) if not c04._has_lazy(fam, e)]
         rnd.shuffle(comp)
-        progs += comp[: (50 if tier == 'thorough' else 10)]
+        progs += ([e for e in c01.gen_programs(fam, 'thorough', seed) if not c04._has_lazy(fam, e)][:3000] if tier == 'thorough' else comp[:10])
         out += [('op', fam, e) for e in progs]
         # composites of tagged leaves: a tag must not leak to a composite whose matrix lacks the property
         tagged = TAGGED_LEAVES[fam]
